@@ -703,6 +703,57 @@ pub fn unknown_out<T: HwVal>() -> T {
 pub fn begin_block() {
     let mm = m();
     mm.block_seq = mm.block_seq.wrapping_add(1);
+    set_opts(0);
+}
+
+// ---- asm!(.., options(..)) as part of the ISA table -------------------------
+// The options of an asm! block are promises to the compiler. A promise that contradicts the architectural
+// effect of the instruction lets the optimiser delete, merge or reorder it (e.g. `pure` on a port read), so
+// that "exactly one access" no longer holds in an optimised build. The table below (ASSUMED, from the Rust
+// reference and the ISA manuals) lists which promises are false for which instruction kind.
+pub const OPT_PURE: u8 = 1;
+pub const OPT_NOMEM: u8 = 2;
+pub const OPT_READONLY: u8 = 4;
+pub const OPT_NOSTACK: u8 = 8;
+pub const OPT_PRESERVES_FLAGS: u8 = 16;
+pub const OPT_NORETURN: u8 = 32;
+
+static mut CUR_OPTS: u8 = 0;
+
+/// Options of the asm! block being executed (set by `hw_asm!` before the instruction functions run).
+pub fn set_opts(mask: u8) {
+    unsafe { CUR_OPTS = mask; }
+}
+
+fn cur_opts() -> u8 {
+    unsafe { CUR_OPTS }
+}
+
+/// Option bits that are FALSE promises for an instruction of this kind.
+pub const fn forbidden_opts(kind: Kind) -> u8 {
+    match kind {
+        // memory-reading operands: lgdt/lidt [ptr], invpcid descriptor, ldmxcsr [ptr]
+        Kind::Lgdt | Kind::Lidt | Kind::Invpcid | Kind::Ldmxcsr => OPT_PURE | OPT_NOMEM,
+        // memory-writing operands: sgdt/sidt/stmxcsr [ptr]
+        Kind::Sgdt | Kind::Sidt | Kind::Stmxcsr => OPT_PURE | OPT_NOMEM | OPT_READONLY,
+        // use the stack
+        Kind::Pushfq => OPT_PURE | OPT_NOSTACK,
+        Kind::Popfq => OPT_PURE | OPT_NOSTACK | OPT_PRESERVES_FLAGS,
+        Kind::SetCs | Kind::Iretq | Kind::IretqStack => OPT_PURE | OPT_NOSTACK,
+        // every other instruction of this crate either has a side effect or reads state that other
+        // instructions change: never `pure`
+        _ => OPT_PURE,
+    }
+}
+
+fn check_opts(kind: Kind) {
+    let bad = cur_opts() & forbidden_opts(kind);
+    if bad != 0 {
+        #[cfg(kani)]
+        kani::assert(false, "VERIF-ASM-OPTIONS: an option of this asm! block (pure / nomem / readonly / nostack / preserves_flags) contradicts the architectural effect of the instruction");
+        #[cfg(not(kani))]
+        panic!("VERIF-ASM-OPTIONS: asm options contradict the instruction");
+    }
 }
 
 /// Start of an asm block that binds explicit registers: new sequence number
@@ -720,6 +771,7 @@ pub fn begin_block_regs() {
 
 /// Append an event to the log.
 pub fn log(kind: Kind, a: u64, b: u64, c: u64) {
+    check_opts(kind);
     let mm = m();
     // write trap (see `set_trap`); never taken unless a harness armed it
     if mm.trap as u8 != 0 && mm.trap as u8 == kind as u8 {
@@ -1206,6 +1258,19 @@ pub fn exec_out(bits: u32) {
 /// the `@ins` / `@outs` binders, so which Rust value goes to which register
 /// comes from the source text. Anything else lands in the last arm.
 #[macro_export]
+macro_rules! hw_opts {
+    () => { 0u8 };
+    (, $($r:tt)*) => { $crate::hw_opts!($($r)*) };
+    (pure $($r:tt)*) => { (1u8 | $crate::hw_opts!($($r)*)) };
+    (nomem $($r:tt)*) => { (2u8 | $crate::hw_opts!($($r)*)) };
+    (readonly $($r:tt)*) => { (4u8 | $crate::hw_opts!($($r)*)) };
+    (nostack $($r:tt)*) => { (8u8 | $crate::hw_opts!($($r)*)) };
+    (preserves_flags $($r:tt)*) => { (16u8 | $crate::hw_opts!($($r)*)) };
+    (noreturn $($r:tt)*) => { (32u8 | $crate::hw_opts!($($r)*)) };
+    ($other:tt $($r:tt)*) => { $crate::hw_opts!($($r)*) };
+}
+
+#[macro_export]
 macro_rules! hw_asm {
     // ---- binders for explicit-register operand lists (internal) ----------
     // `@ins`: move every `in("r") e` / `inout("r") e` into the scratch file.
@@ -1235,7 +1300,7 @@ macro_rules! hw_asm {
     (@ins out($r:literal) _ , $($rest:tt)*) => { $crate::hw_asm!(@ins $($rest)*); };
     (@ins lateout($r:literal) $v:ident , $($rest:tt)*) => { $crate::hw_asm!(@ins $($rest)*); };
     (@ins lateout($r:literal) _ , $($rest:tt)*) => { $crate::hw_asm!(@ins $($rest)*); };
-    (@ins options($($o:tt)*) , $($rest:tt)*) => { $crate::hw_asm!(@ins $($rest)*); };
+    (@ins options($($o:tt)*) , $($rest:tt)*) => { $crate::verif_hw::set_opts($crate::hw_opts!($($o)*)); $crate::hw_asm!(@ins $($rest)*); };
     (@ins $($other:tt)+) => { $crate::verif_hw::unknown_asm(); };
 
     // `@outs`: assign every `out("r") v` / `inout` from the scratch file.
@@ -1312,103 +1377,103 @@ macro_rules! hw_asm {
 
     // ---- no operands ---------------------------------------------------------
     // interrupts.rs
-    ("sti" $(, options($($o:tt)*))? $(,)?) => {{ $crate::verif_hw::begin_block(); $crate::verif_hw::sti(); }};
-    ("cli" $(, options($($o:tt)*))? $(,)?) => {{ $crate::verif_hw::begin_block(); $crate::verif_hw::cli(); }};
-    ("sti; hlt" $(, options($($o:tt)*))? $(,)?) => {{ $crate::verif_hw::begin_block(); $crate::verif_hw::sti(); $crate::verif_hw::hlt(); }};
-    ("int3" $(, options($($o:tt)*))? $(,)?) => {{ $crate::verif_hw::begin_block(); $crate::verif_hw::int3(); }};
-    ("int {num}", num = const $n:expr $(, options($($o:tt)*))? $(,)?) => {{ $crate::verif_hw::begin_block(); $crate::verif_hw::int_n(($n) as u8); }};
+    ("sti" $(, options($($o:tt)*))? $(,)?) => {{ $crate::verif_hw::begin_block(); $crate::verif_hw::set_opts($crate::hw_opts!($($($o)*)?)); $crate::verif_hw::sti(); }};
+    ("cli" $(, options($($o:tt)*))? $(,)?) => {{ $crate::verif_hw::begin_block(); $crate::verif_hw::set_opts($crate::hw_opts!($($($o)*)?)); $crate::verif_hw::cli(); }};
+    ("sti; hlt" $(, options($($o:tt)*))? $(,)?) => {{ $crate::verif_hw::begin_block(); $crate::verif_hw::set_opts($crate::hw_opts!($($($o)*)?)); $crate::verif_hw::sti(); $crate::verif_hw::hlt(); }};
+    ("int3" $(, options($($o:tt)*))? $(,)?) => {{ $crate::verif_hw::begin_block(); $crate::verif_hw::set_opts($crate::hw_opts!($($($o)*)?)); $crate::verif_hw::int3(); }};
+    ("int {num}", num = const $n:expr $(, options($($o:tt)*))? $(,)?) => {{ $crate::verif_hw::begin_block(); $crate::verif_hw::set_opts($crate::hw_opts!($($($o)*)?)); $crate::verif_hw::int_n(($n) as u8); }};
     // instructions/mod.rs
-    ("hlt" $(, options($($o:tt)*))? $(,)?) => {{ $crate::verif_hw::begin_block(); $crate::verif_hw::hlt(); }};
-    ("nop" $(, options($($o:tt)*))? $(,)?) => {{ $crate::verif_hw::begin_block(); $crate::verif_hw::nop(); }};
-    ("xchg bx, bx" $(, options($($o:tt)*))? $(,)?) => {{ $crate::verif_hw::begin_block(); $crate::verif_hw::bochs_break(); }};
-    ("lea {}, [rip]", out(reg) $v:ident $(, options($($o:tt)*))? $(,)?) => {{ $crate::verif_hw::begin_block(); $v = $crate::verif_hw::read_rip(); }};
+    ("hlt" $(, options($($o:tt)*))? $(,)?) => {{ $crate::verif_hw::begin_block(); $crate::verif_hw::set_opts($crate::hw_opts!($($($o)*)?)); $crate::verif_hw::hlt(); }};
+    ("nop" $(, options($($o:tt)*))? $(,)?) => {{ $crate::verif_hw::begin_block(); $crate::verif_hw::set_opts($crate::hw_opts!($($($o)*)?)); $crate::verif_hw::nop(); }};
+    ("xchg bx, bx" $(, options($($o:tt)*))? $(,)?) => {{ $crate::verif_hw::begin_block(); $crate::verif_hw::set_opts($crate::hw_opts!($($($o)*)?)); $crate::verif_hw::bochs_break(); }};
+    ("lea {}, [rip]", out(reg) $v:ident $(, options($($o:tt)*))? $(,)?) => {{ $crate::verif_hw::begin_block(); $crate::verif_hw::set_opts($crate::hw_opts!($($($o)*)?)); $v = $crate::verif_hw::read_rip(); }};
     // segmentation.rs
-    ("swapgs" $(, options($($o:tt)*))? $(,)?) => {{ $crate::verif_hw::begin_block(); $crate::verif_hw::swapgs(); }};
+    ("swapgs" $(, options($($o:tt)*))? $(,)?) => {{ $crate::verif_hw::begin_block(); $crate::verif_hw::set_opts($crate::hw_opts!($($($o)*)?)); $crate::verif_hw::swapgs(); }};
     // tlb.rs
-    ("tlbsync" $(, options($($o:tt)*))? $(,)?) => {{ $crate::verif_hw::begin_block(); $crate::verif_hw::tlbsync(); }};
+    ("tlbsync" $(, options($($o:tt)*))? $(,)?) => {{ $crate::verif_hw::begin_block(); $crate::verif_hw::set_opts($crate::hw_opts!($($($o)*)?)); $crate::verif_hw::tlbsync(); }};
     ("invlpg [{}]", in(reg) $a:expr $(, options($($o:tt)*))? $(,)?) => {{
-        $crate::verif_hw::begin_block();
+        $crate::verif_hw::begin_block(); $crate::verif_hw::set_opts($crate::hw_opts!($($($o)*)?));
         $crate::verif_hw::invlpg($crate::verif_hw::to_u64($a));
     }};
     ("invpcid {0}, [{1}]", in(reg) $k:expr, in(reg) $d:expr $(, options($($o:tt)*))? $(,)?) => {{
-        $crate::verif_hw::begin_block();
+        $crate::verif_hw::begin_block(); $crate::verif_hw::set_opts($crate::hw_opts!($($($o)*)?));
         $crate::verif_hw::invpcid($crate::verif_hw::to_u64($k), $d as *const _ as *const u8);
     }};
 
     // ---- control registers (control.rs) --------------------------------------
-    ("mov {}, cr0", out(reg) $v:ident $(, options($($o:tt)*))? $(,)?) => {{ $crate::verif_hw::begin_block(); $v = $crate::verif_hw::mov_from_cr(0); }};
-    ("mov {}, cr2", out(reg) $v:ident $(, options($($o:tt)*))? $(,)?) => {{ $crate::verif_hw::begin_block(); $v = $crate::verif_hw::mov_from_cr(2); }};
-    ("mov {}, cr3", out(reg) $v:ident $(, options($($o:tt)*))? $(,)?) => {{ $crate::verif_hw::begin_block(); $v = $crate::verif_hw::mov_from_cr(3); }};
-    ("mov {}, cr4", out(reg) $v:ident $(, options($($o:tt)*))? $(,)?) => {{ $crate::verif_hw::begin_block(); $v = $crate::verif_hw::mov_from_cr(4); }};
-    ("mov cr0, {}", in(reg) $e:expr $(, options($($o:tt)*))? $(,)?) => {{ $crate::verif_hw::begin_block(); $crate::verif_hw::mov_to_cr(0, $e); }};
-    ("mov cr2, {}", in(reg) $e:expr $(, options($($o:tt)*))? $(,)?) => {{ $crate::verif_hw::begin_block(); $crate::verif_hw::mov_to_cr(2, $e); }};
-    ("mov cr3, {}", in(reg) $e:expr $(, options($($o:tt)*))? $(,)?) => {{ $crate::verif_hw::begin_block(); $crate::verif_hw::mov_to_cr(3, $e); }};
-    ("mov cr4, {}", in(reg) $e:expr $(, options($($o:tt)*))? $(,)?) => {{ $crate::verif_hw::begin_block(); $crate::verif_hw::mov_to_cr(4, $e); }};
+    ("mov {}, cr0", out(reg) $v:ident $(, options($($o:tt)*))? $(,)?) => {{ $crate::verif_hw::begin_block(); $crate::verif_hw::set_opts($crate::hw_opts!($($($o)*)?)); $v = $crate::verif_hw::mov_from_cr(0); }};
+    ("mov {}, cr2", out(reg) $v:ident $(, options($($o:tt)*))? $(,)?) => {{ $crate::verif_hw::begin_block(); $crate::verif_hw::set_opts($crate::hw_opts!($($($o)*)?)); $v = $crate::verif_hw::mov_from_cr(2); }};
+    ("mov {}, cr3", out(reg) $v:ident $(, options($($o:tt)*))? $(,)?) => {{ $crate::verif_hw::begin_block(); $crate::verif_hw::set_opts($crate::hw_opts!($($($o)*)?)); $v = $crate::verif_hw::mov_from_cr(3); }};
+    ("mov {}, cr4", out(reg) $v:ident $(, options($($o:tt)*))? $(,)?) => {{ $crate::verif_hw::begin_block(); $crate::verif_hw::set_opts($crate::hw_opts!($($($o)*)?)); $v = $crate::verif_hw::mov_from_cr(4); }};
+    ("mov cr0, {}", in(reg) $e:expr $(, options($($o:tt)*))? $(,)?) => {{ $crate::verif_hw::begin_block(); $crate::verif_hw::set_opts($crate::hw_opts!($($($o)*)?)); $crate::verif_hw::mov_to_cr(0, $e); }};
+    ("mov cr2, {}", in(reg) $e:expr $(, options($($o:tt)*))? $(,)?) => {{ $crate::verif_hw::begin_block(); $crate::verif_hw::set_opts($crate::hw_opts!($($($o)*)?)); $crate::verif_hw::mov_to_cr(2, $e); }};
+    ("mov cr3, {}", in(reg) $e:expr $(, options($($o:tt)*))? $(,)?) => {{ $crate::verif_hw::begin_block(); $crate::verif_hw::set_opts($crate::hw_opts!($($($o)*)?)); $crate::verif_hw::mov_to_cr(3, $e); }};
+    ("mov cr4, {}", in(reg) $e:expr $(, options($($o:tt)*))? $(,)?) => {{ $crate::verif_hw::begin_block(); $crate::verif_hw::set_opts($crate::hw_opts!($($($o)*)?)); $crate::verif_hw::mov_to_cr(4, $e); }};
 
     // ---- debug registers (debug.rs) ------------------------------------------
-    ("mov {}, dr0", out(reg) $v:ident $(, options($($o:tt)*))? $(,)?) => {{ $crate::verif_hw::begin_block(); $v = $crate::verif_hw::mov_from_dr(0); }};
-    ("mov {}, dr1", out(reg) $v:ident $(, options($($o:tt)*))? $(,)?) => {{ $crate::verif_hw::begin_block(); $v = $crate::verif_hw::mov_from_dr(1); }};
-    ("mov {}, dr2", out(reg) $v:ident $(, options($($o:tt)*))? $(,)?) => {{ $crate::verif_hw::begin_block(); $v = $crate::verif_hw::mov_from_dr(2); }};
-    ("mov {}, dr3", out(reg) $v:ident $(, options($($o:tt)*))? $(,)?) => {{ $crate::verif_hw::begin_block(); $v = $crate::verif_hw::mov_from_dr(3); }};
-    ("mov {}, dr6", out(reg) $v:ident $(, options($($o:tt)*))? $(,)?) => {{ $crate::verif_hw::begin_block(); $v = $crate::verif_hw::mov_from_dr(6); }};
-    ("mov {}, dr7", out(reg) $v:ident $(, options($($o:tt)*))? $(,)?) => {{ $crate::verif_hw::begin_block(); $v = $crate::verif_hw::mov_from_dr(7); }};
-    ("mov dr0, {}", in(reg) $e:expr $(, options($($o:tt)*))? $(,)?) => {{ $crate::verif_hw::begin_block(); $crate::verif_hw::mov_to_dr(0, $e); }};
-    ("mov dr1, {}", in(reg) $e:expr $(, options($($o:tt)*))? $(,)?) => {{ $crate::verif_hw::begin_block(); $crate::verif_hw::mov_to_dr(1, $e); }};
-    ("mov dr2, {}", in(reg) $e:expr $(, options($($o:tt)*))? $(,)?) => {{ $crate::verif_hw::begin_block(); $crate::verif_hw::mov_to_dr(2, $e); }};
-    ("mov dr3, {}", in(reg) $e:expr $(, options($($o:tt)*))? $(,)?) => {{ $crate::verif_hw::begin_block(); $crate::verif_hw::mov_to_dr(3, $e); }};
-    ("mov dr6, {}", in(reg) $e:expr $(, options($($o:tt)*))? $(,)?) => {{ $crate::verif_hw::begin_block(); $crate::verif_hw::mov_to_dr(6, $e); }};
-    ("mov dr7, {}", in(reg) $e:expr $(, options($($o:tt)*))? $(,)?) => {{ $crate::verif_hw::begin_block(); $crate::verif_hw::mov_to_dr(7, $e); }};
+    ("mov {}, dr0", out(reg) $v:ident $(, options($($o:tt)*))? $(,)?) => {{ $crate::verif_hw::begin_block(); $crate::verif_hw::set_opts($crate::hw_opts!($($($o)*)?)); $v = $crate::verif_hw::mov_from_dr(0); }};
+    ("mov {}, dr1", out(reg) $v:ident $(, options($($o:tt)*))? $(,)?) => {{ $crate::verif_hw::begin_block(); $crate::verif_hw::set_opts($crate::hw_opts!($($($o)*)?)); $v = $crate::verif_hw::mov_from_dr(1); }};
+    ("mov {}, dr2", out(reg) $v:ident $(, options($($o:tt)*))? $(,)?) => {{ $crate::verif_hw::begin_block(); $crate::verif_hw::set_opts($crate::hw_opts!($($($o)*)?)); $v = $crate::verif_hw::mov_from_dr(2); }};
+    ("mov {}, dr3", out(reg) $v:ident $(, options($($o:tt)*))? $(,)?) => {{ $crate::verif_hw::begin_block(); $crate::verif_hw::set_opts($crate::hw_opts!($($($o)*)?)); $v = $crate::verif_hw::mov_from_dr(3); }};
+    ("mov {}, dr6", out(reg) $v:ident $(, options($($o:tt)*))? $(,)?) => {{ $crate::verif_hw::begin_block(); $crate::verif_hw::set_opts($crate::hw_opts!($($($o)*)?)); $v = $crate::verif_hw::mov_from_dr(6); }};
+    ("mov {}, dr7", out(reg) $v:ident $(, options($($o:tt)*))? $(,)?) => {{ $crate::verif_hw::begin_block(); $crate::verif_hw::set_opts($crate::hw_opts!($($($o)*)?)); $v = $crate::verif_hw::mov_from_dr(7); }};
+    ("mov dr0, {}", in(reg) $e:expr $(, options($($o:tt)*))? $(,)?) => {{ $crate::verif_hw::begin_block(); $crate::verif_hw::set_opts($crate::hw_opts!($($($o)*)?)); $crate::verif_hw::mov_to_dr(0, $e); }};
+    ("mov dr1, {}", in(reg) $e:expr $(, options($($o:tt)*))? $(,)?) => {{ $crate::verif_hw::begin_block(); $crate::verif_hw::set_opts($crate::hw_opts!($($($o)*)?)); $crate::verif_hw::mov_to_dr(1, $e); }};
+    ("mov dr2, {}", in(reg) $e:expr $(, options($($o:tt)*))? $(,)?) => {{ $crate::verif_hw::begin_block(); $crate::verif_hw::set_opts($crate::hw_opts!($($($o)*)?)); $crate::verif_hw::mov_to_dr(2, $e); }};
+    ("mov dr3, {}", in(reg) $e:expr $(, options($($o:tt)*))? $(,)?) => {{ $crate::verif_hw::begin_block(); $crate::verif_hw::set_opts($crate::hw_opts!($($($o)*)?)); $crate::verif_hw::mov_to_dr(3, $e); }};
+    ("mov dr6, {}", in(reg) $e:expr $(, options($($o:tt)*))? $(,)?) => {{ $crate::verif_hw::begin_block(); $crate::verif_hw::set_opts($crate::hw_opts!($($($o)*)?)); $crate::verif_hw::mov_to_dr(6, $e); }};
+    ("mov dr7, {}", in(reg) $e:expr $(, options($($o:tt)*))? $(,)?) => {{ $crate::verif_hw::begin_block(); $crate::verif_hw::set_opts($crate::hw_opts!($($($o)*)?)); $crate::verif_hw::mov_to_dr(7, $e); }};
     // debug_address_register!: concat!("mov {}, ", "drN") / concat!("mov ", "drN", ", {}")
     (concat!("mov {}, ", $n:literal), out(reg) $v:ident $(, options($($o:tt)*))? $(,)?) => {{
-        $crate::verif_hw::begin_block();
+        $crate::verif_hw::begin_block(); $crate::verif_hw::set_opts($crate::hw_opts!($($($o)*)?));
         $v = $crate::verif_hw::mov_from_sysreg({ const R: (u8, u8) = $crate::verif_hw::sysreg_by_name($n); R });
     }};
     (concat!("mov ", $n:literal, ", {}"), in(reg) $e:expr $(, options($($o:tt)*))? $(,)?) => {{
-        $crate::verif_hw::begin_block();
+        $crate::verif_hw::begin_block(); $crate::verif_hw::set_opts($crate::hw_opts!($($($o)*)?));
         $crate::verif_hw::mov_to_sysreg({ const R: (u8, u8) = $crate::verif_hw::sysreg_by_name($n); R }, $e);
     }};
 
     // ---- segment registers (segmentation.rs) ---------------------------------
     // get_reg_impl!: concat!("mov {0:x}, ", "cs")
     (concat!("mov {0:x}, ", $n:literal), out(reg) $v:ident $(, options($($o:tt)*))? $(,)?) => {{
-        $crate::verif_hw::begin_block();
+        $crate::verif_hw::begin_block(); $crate::verif_hw::set_opts($crate::hw_opts!($($($o)*)?));
         $v = $crate::verif_hw::mov_from_seg({ const S: u8 = $crate::verif_hw::seg_by_name($n); S });
     }};
     // segment_impl!: concat!("mov ", "ss", ", {0:x}")
     (concat!("mov ", $n:literal, ", {0:x}"), in(reg) $e:expr $(, options($($o:tt)*))? $(,)?) => {{
-        $crate::verif_hw::begin_block();
+        $crate::verif_hw::begin_block(); $crate::verif_hw::set_opts($crate::hw_opts!($($($o)*)?));
         $crate::verif_hw::mov_to_seg({ const S: u8 = $crate::verif_hw::seg_by_name($n); S }, $e);
     }};
     // segment64_impl!: concat!("rd", "fs", "base {}") / concat!("wr", "fs", "base {}")
     (concat!("rd", $n:literal, "base {}"), out(reg) $v:ident $(, options($($o:tt)*))? $(,)?) => {{
-        $crate::verif_hw::begin_block();
+        $crate::verif_hw::begin_block(); $crate::verif_hw::set_opts($crate::hw_opts!($($($o)*)?));
         $v = $crate::verif_hw::rd_seg_base({ const S: u8 = $crate::verif_hw::seg_by_name($n); S });
     }};
     (concat!("wr", $n:literal, "base {}"), in(reg) $e:expr $(, options($($o:tt)*))? $(,)?) => {{
-        $crate::verif_hw::begin_block();
+        $crate::verif_hw::begin_block(); $crate::verif_hw::set_opts($crate::hw_opts!($($($o)*)?));
         $crate::verif_hw::wr_seg_base({ const S: u8 = $crate::verif_hw::seg_by_name($n); S }, $e);
     }};
     // CS::set_reg
     ("push {sel}", "lea {tmp}, [55f + rip]", "push {tmp}", "retfq", "55:",
      sel = in(reg) $s:expr, tmp = lateout(reg) _ $(, options($($o:tt)*))? $(,)?) => {{
-        $crate::verif_hw::begin_block();
+        $crate::verif_hw::begin_block(); $crate::verif_hw::set_opts($crate::hw_opts!($($($o)*)?));
         $crate::verif_hw::set_cs($crate::verif_hw::to_u64($s) as u16);
     }};
 
     // ---- descriptor tables (tables.rs) ---------------------------------------
-    ("lgdt [{}]", in(reg) $p:expr $(, options($($o:tt)*))? $(,)?) => {{ $crate::verif_hw::begin_block(); $crate::verif_hw::lgdt($p as *const _ as *const u8); }};
-    ("lidt [{}]", in(reg) $p:expr $(, options($($o:tt)*))? $(,)?) => {{ $crate::verif_hw::begin_block(); $crate::verif_hw::lidt($p as *const _ as *const u8); }};
-    ("sgdt [{}]", in(reg) $p:expr $(, options($($o:tt)*))? $(,)?) => {{ $crate::verif_hw::begin_block(); $crate::verif_hw::sgdt($p as *mut _ as *mut u8); }};
-    ("sidt [{}]", in(reg) $p:expr $(, options($($o:tt)*))? $(,)?) => {{ $crate::verif_hw::begin_block(); $crate::verif_hw::sidt($p as *mut _ as *mut u8); }};
-    ("ltr {0:x}", in(reg) $e:expr $(, options($($o:tt)*))? $(,)?) => {{ $crate::verif_hw::begin_block(); $crate::verif_hw::ltr($e); }};
+    ("lgdt [{}]", in(reg) $p:expr $(, options($($o:tt)*))? $(,)?) => {{ $crate::verif_hw::begin_block(); $crate::verif_hw::set_opts($crate::hw_opts!($($($o)*)?)); $crate::verif_hw::lgdt($p as *const _ as *const u8); }};
+    ("lidt [{}]", in(reg) $p:expr $(, options($($o:tt)*))? $(,)?) => {{ $crate::verif_hw::begin_block(); $crate::verif_hw::set_opts($crate::hw_opts!($($($o)*)?)); $crate::verif_hw::lidt($p as *const _ as *const u8); }};
+    ("sgdt [{}]", in(reg) $p:expr $(, options($($o:tt)*))? $(,)?) => {{ $crate::verif_hw::begin_block(); $crate::verif_hw::set_opts($crate::hw_opts!($($($o)*)?)); $crate::verif_hw::sgdt($p as *mut _ as *mut u8); }};
+    ("sidt [{}]", in(reg) $p:expr $(, options($($o:tt)*))? $(,)?) => {{ $crate::verif_hw::begin_block(); $crate::verif_hw::set_opts($crate::hw_opts!($($($o)*)?)); $crate::verif_hw::sidt($p as *mut _ as *mut u8); }};
+    ("ltr {0:x}", in(reg) $e:expr $(, options($($o:tt)*))? $(,)?) => {{ $crate::verif_hw::begin_block(); $crate::verif_hw::set_opts($crate::hw_opts!($($($o)*)?)); $crate::verif_hw::ltr($e); }};
 
     // ---- mxcsr.rs ------------------------------------------------------------
-    ("stmxcsr [{}]", in(reg) $p:expr $(, options($($o:tt)*))? $(,)?) => {{ $crate::verif_hw::begin_block(); $crate::verif_hw::stmxcsr($p as *mut _ as *mut u32); }};
-    ("ldmxcsr [{}]", in(reg) $p:expr $(, options($($o:tt)*))? $(,)?) => {{ $crate::verif_hw::begin_block(); $crate::verif_hw::ldmxcsr($p as *const _ as *const u32); }};
+    ("stmxcsr [{}]", in(reg) $p:expr $(, options($($o:tt)*))? $(,)?) => {{ $crate::verif_hw::begin_block(); $crate::verif_hw::set_opts($crate::hw_opts!($($($o)*)?)); $crate::verif_hw::stmxcsr($p as *mut _ as *mut u32); }};
+    ("ldmxcsr [{}]", in(reg) $p:expr $(, options($($o:tt)*))? $(,)?) => {{ $crate::verif_hw::begin_block(); $crate::verif_hw::set_opts($crate::hw_opts!($($($o)*)?)); $crate::verif_hw::ldmxcsr($p as *const _ as *const u32); }};
 
     // ---- rflags.rs -----------------------------------------------------------
-    ("pushfq; pop {}", out(reg) $v:ident $(, options($($o:tt)*))? $(,)?) => {{ $crate::verif_hw::begin_block(); $v = $crate::verif_hw::pushfq_pop(); }};
-    ("push {}; popfq", in(reg) $e:expr $(, options($($o:tt)*))? $(,)?) => {{ $crate::verif_hw::begin_block(); $crate::verif_hw::push_popfq($e); }};
+    ("pushfq; pop {}", out(reg) $v:ident $(, options($($o:tt)*))? $(,)?) => {{ $crate::verif_hw::begin_block(); $crate::verif_hw::set_opts($crate::hw_opts!($($($o)*)?)); $v = $crate::verif_hw::pushfq_pop(); }};
+    ("push {}; popfq", in(reg) $e:expr $(, options($($o:tt)*))? $(,)?) => {{ $crate::verif_hw::begin_block(); $crate::verif_hw::set_opts($crate::hw_opts!($($($o)*)?)); $crate::verif_hw::push_popfq($e); }};
 
     // ---- idt.rs InterruptStackFrameValue::iretq ------------------------------
     ("push {stack_segment:r}", "push {new_stack_pointer}", "push {rflags}", "push {code_segment:r}",
